@@ -317,6 +317,37 @@ func c02R3(c *Ctx, rule string) {
 			}
 			return v.F("prepared")
 		})
+	// after a batch was handed over inside the loop, the accumulator restarts
+	// empty (otherwise the same entries would be sent to the FSM again)
+	{
+		rr := c.Run(&engine.Automaton{Fn: fn, Tracks: []engine.Track{
+			{Name: "iter", If: func(cd engine.Cond, ifi *ssa.If) (bool, int) { return ifi == hdr, engine.True }, Kills: []string{"flushed"}},
+			engine.Event("flushed", isFlush),
+		}})
+		bad := ""
+		n := 0
+		engine.EachInstr(fn, func(in ssa.Instruction) {
+			ph, ok := in.(*ssa.Phi)
+			if !ok || !strings.Contains(c.P.TypeStr(ph.Type()), "commitTuple") {
+				return
+			}
+			for i, e := range ph.Edges {
+				for _, st := range rr.EdgeStates(ph.Block().Preds[i], ph.Block()) {
+					if !st.Seen("flushed") {
+						continue
+					}
+					n++
+					if _, isPhi := e.(*ssa.Phi); isPhi {
+						continue // judged at the inner phi
+					}
+					if _, isMake := e.(*ssa.MakeSlice); !isMake {
+						bad = "after applyBatch(batch) in the loop the accumulator continues as " + c.P.D(e) + " instead of a fresh empty slice"
+					}
+				}
+			}
+		})
+		c.Check(rule, "processLogs:batch-restarts-empty-after-flush", c.P.InstrPos(hdr), "a batch handed to the FSM inside the loop is replaced by a fresh empty slice before more entries are collected (no entry is sent twice)", bad == "" && n > 0, pick(bad == "" && n > 0, fmt.Sprintf("%d edge states after a flush carry a fresh slice", n), pick(bad != "", bad, "no flush inside the loop found")), n)
+	}
 	// prepared entry really is what gets appended: the varargs element is the prepareLog result
 	okElem := false
 	engine.EachInstr(fn, func(in ssa.Instruction) {
